@@ -165,8 +165,9 @@ impl YamlConverter {
 
     pub fn write(&self, v: &Val, mut w: &mut dyn Write) -> ConvertResult {
         let jsn_val = self.convert_value(v)?;
+        // serde_yaml already terminates the document with a line break; an extra
+        // blank line would become part of a trailing keep-chomped block scalar.
         serde_yaml::to_writer(&mut w, &jsn_val)?;
-        writeln!(w)?;
         Ok(())
     }
 }
